@@ -183,7 +183,10 @@ def _check_as_ast(run: Run, fa, fi: FuncInfo, call: ast.Call, t) -> None:
 def _check_entry_points(run: Run, ctx, m) -> None:
     os_cls = m.find_class("ObjectStream", in_module="func_adl.object_stream")
     n_calls = 0
+    from ..lib import view
+
     for name, fi in os_cls.methods.items():
+        fi = view(m, fi)
         fa = ctx.analysis(fi)
         selfp = ("param", fi.pos_params[0]) if fi.pos_params else None
         value_params = {("param", p) for p in fi.pos_params[1:]}
@@ -288,8 +291,10 @@ def _check_gate(run: Run, ctx, m) -> None:
     run.check(len(visits) == 1, "C13.R3", ca, ca.node, "check_ast visits the whole ast it is given", "check_ast does not visit its argument")
     # gate dominance in the three operators, on the emitted lambda
     os_cls = m.find_class("ObjectStream", in_module="func_adl.object_stream")
+    from ..lib import view
+
     for op in ("Select", "SelectMany", "Where"):
-        fi = os_cls.methods.get(op)
+        fi = view(m, os_cls.methods.get(op))
         if fi is None:
             raise AnalysisError(f"anchor vanished: ObjectStream.{op}")
         from ..lib import call_events, event_before
